@@ -375,6 +375,28 @@ impl CState {
                     let r = tdefl_compress_mem_to_mem(dst.ptr as *mut c_void, dst.len, src.ptr as *const c_void, src.len, n(a[1]) as c_int);
                     format!("len={} full={}", r, hex(&dst.slice()[..r.min(dst.len)]))
                 }
+                "tdefl_fit" => {
+                    // tdefl_fit <flags> <in>: tdefl_compress_mem_to_mem into destinations of n-1, n, n+1 and n+100 bytes,
+                    // n being what tdefl_compress_mem_to_heap produced; canary bytes behind the reported length
+                    let src = Guarded::from(&self.bytes(a[2], input));
+                    let mut n0: usize = 0;
+                    let p = tdefl_compress_mem_to_heap(src.ptr as *const c_void, src.len, &mut n0, n(a[1]) as c_int);
+                    if p.is_null() {
+                        "null".to_string()
+                    } else {
+                        let want = std::slice::from_raw_parts(p as *const u8, n0).to_vec();
+                        libc::free(p);
+                        let mut s = format!("n={}", n0);
+                        for (tag, cap) in [("m1", n0.saturating_sub(1)), ("eq", n0), ("p1", n0 + 1), ("p100", n0 + 100)] {
+                            let dst = Guarded::new(cap, 0x55);
+                            let r = tdefl_compress_mem_to_mem(dst.ptr as *mut c_void, dst.len, src.ptr as *const c_void, src.len, n(a[1]) as c_int);
+                            let same = r == n0 && dst.slice()[..r.min(dst.len)] == want[..];
+                            let clean = dst.slice()[r.min(dst.len)..].iter().all(|&b| b == 0x55);
+                            s.push_str(&format!(" {}={}:{}:{}", tag, r, same as u8, clean as u8));
+                        }
+                        s
+                    }
+                }
                 _ => return None,
             })
         }
